@@ -83,6 +83,73 @@ theorem C09_sim_new (ext : Ext) (cfg : Config) (m : Mw) (hm : Mw.new ext cfg = .
   | nil => intro m s h; exact h
   | cons op ops ih => intro m s h; exact ih _ _ (sim_step ext m s op h)
 
+/-- The configuration in force was accepted: it is the internal form of some `Config` that validation let through. -/
+def Mw.Accepted (ext : Ext) (m : Mw) : Prop :=
+  ∀ i, m.icfg = some i → ∃ cfg, newInternalConfig ext cfg = .ok i
+
+theorem accepted_step (ext : Ext) (m : Mw) (op : Op) (h : m.Accepted ext) : (Mw.step ext m op).Accepted ext := by
+  cases op with
+  | setDebug b => intro i hi; exact h i (by simpa [Mw.step, Mw.setDebug] using hi)
+  | reconfigureNil => intro i hi; simp [Mw.step, Mw.reconfigure] at hi
+  | reconfigure cfg =>
+    intro i hi
+    simp only [Mw.step, Mw.reconfigure] at hi
+    cases hc : newInternalConfig ext cfg with
+    | error e => rw [hc] at hi; exact h i hi
+    | ok icfg =>
+      rw [hc] at hi
+      simp only [Option.some.injEq] at hi
+      subst hi
+      exact ⟨cfg, hc⟩
+
+/-- **Every reachable state holds an accepted configuration.** After any sequence of `SetDebug` and
+`Reconfigure` calls (valid, invalid or nil, in any order), starting from the zero value or from
+`NewMiddleware`, the middleware is passthrough or holds the internal form of a `Config` that validation
+accepted. This is what makes the per-configuration theorems (C01-C03, C10, C11, C14, C16: "for every accepted
+configuration …") statements about *every state a middleware can be in*; `C09_reachable_response` spells out
+what that means for the handler returned by `Wrap`. -/
+theorem C09_reachable_accepted (ext : Ext) (m0 : Mw) (h0 : m0 = Mw.zero ∨ ∃ cfg, Mw.new ext cfg = .ok m0) (ops : List Op) :
+    (ops.foldl (Mw.step ext) m0).Accepted ext := by
+  have hstart : m0.Accepted ext := by
+    rcases h0 with rfl | ⟨cfg, hm⟩
+    · intro i hi; simp [Mw.zero] at hi
+    · intro i hi
+      unfold Mw.new at hm
+      cases hc : newInternalConfig ext cfg with
+      | error e => simp [hc] at hm
+      | ok icfg =>
+        simp only [hc, Except.ok.injEq] at hm
+        subst hm
+        simp only [Option.some.injEq] at hi
+        subst hi
+        exact ⟨cfg, hc⟩
+  suffices ∀ m, m.Accepted ext → (ops.foldl (Mw.step ext) m).Accepted ext from this _ hstart
+  induction ops with
+  | nil => intro m h; exact h
+  | cons op ops ih => intro m h; exact ih _ (accepted_step ext m op h)
+
+/-- **Every response of every reachable middleware** is either the untouched pass-through (no configuration
+in force) or `Serve.serve icfg debug` for the internal form `icfg` of an accepted `Config` and the debug mode
+the documented state machine prescribes after the same operations. -/
+theorem C09_reachable_response (ext : Ext) (ops : List Op) (r : Req) (pre : HdrMap) :
+    let m := ops.foldl (Mw.step ext) Mw.zero
+    let s := ops.foldl (SM.step ext) { configured := false, debug := false }
+    (s.configured = false ∧ m.serve r pre = { hdrs := pre, status := none, next := true }) ∨
+    (s.configured = true ∧ ∃ cfg icfg, newInternalConfig ext cfg = .ok icfg ∧ m.serve r pre = Serve.serve icfg s.debug r pre) := by
+  simp only []
+  have hacc := C09_reachable_accepted ext Mw.zero (Or.inl rfl) ops
+  obtain ⟨h1, h2, _⟩ := C09_sim_zero ext ops
+  cases hi : (ops.foldl (Mw.step ext) Mw.zero).icfg with
+  | none =>
+    left
+    rw [hi] at h1
+    exact ⟨h1.symm, by unfold Mw.serve; rw [hi]⟩
+  | some icfg =>
+    right
+    rw [hi] at h1
+    obtain ⟨cfg, hc⟩ := hacc icfg hi
+    exact ⟨h1.symm, cfg, icfg, hc, by unfold Mw.serve; rw [hi, h2]⟩
+
 /-- Creation through the zero value + Reconfigure and through NewMiddleware agree. -/
 theorem C09_ctor (ext : Ext) (cfg : Config) :
     (match Mw.new ext cfg with | .ok m => (none, m) | .error e => (some e, Mw.zero)) =
@@ -277,5 +344,7 @@ example (ext : Ext) : ([Op.setDebug true, Op.reconfigureNil].foldl (Mw.step ext)
 #print axioms C09_preflight_next
 #print axioms C09_preflight_frame
 #print axioms C09_preflight_success
+#print axioms C09_reachable_accepted
+#print axioms C09_reachable_response
 
 end Cors
